@@ -108,17 +108,71 @@ Qed.
 (* ------------------------------------------------------------------ *)
 (* KeysetInfo / String: a function of the metadata only                *)
 (* ------------------------------------------------------------------ *)
-Definition aead_like (d : pkd) : bool :=
+(* The kind of key object (its constructor, and for the asymmetric kinds
+   whether it is the private half) as a number: 0 is the fallback key. *)
+Definition ptag (d : pkd) : N :=
   match d with
-  | PAesGcm _ | PAesGcmSiv _ | PAesCtrHmac _ _ _ _ _ | PAesSiv _ | PChaCha _ | PXChaCha _ => true
-  | _ => false
+  | PHmac _ _ _ => 1 | PAesCmac _ _ => 2 | PAesGcm _ => 3 | PAesGcmSiv _ => 4 | PAesCtrHmac _ _ _ _ _ => 5
+  | PAesSiv _ => 6 | PHkdfPrf _ _ => 7 | PHmacPrf _ _ => 8 | PAesCmacPrf _ => 9 | PEcdsaPub _ _ _ _ => 10
+  | PEcdsaPriv _ _ _ _ _ => 11 | PRsaPkcs1Pub _ _ _ => 12 | PRsaPssPub _ _ _ _ => 13 | PChaCha _ => 14
+  | PXChaCha _ => 15 | PXAesGcm _ _ => 16 | PEd25519Pub => 17 | PEd25519Priv _ => 18
+  | PRsaPriv _ _ _ _ _ => 19 | PEcies false _ _ _ => 20 | PEcies true _ _ _ => 21
+  | PHpke false _ => 22 | PHpke true _ => 23 | PStreamGcmHkdf _ _ _ => 24 | PStreamCtrHmac _ _ _ _ _ => 25
+  | PJwtHmac _ _ => 26 | PJwtEcdsa false _ _ => 27 | PJwtEcdsa true _ _ => 28 | PJwtRsaPub _ _ _ => 29
+  | PJwtRsaPriv _ _ _ _ _ _ _ _ => 30 | PJwtMlDsaPub => 31 | PMlDsaPub => 32
+  | PSlhDsa false => 33 | PSlhDsa true => 34
+  | PFallback _ => 0
   end.
-Definition url_collapses (u : bytes) : bool :=
-  beq u u_aes_gcm || beq u u_aes_gcm_siv || beq u u_aes_ctr_hmac || beq u u_aes_siv
-  || beq u u_chacha || beq u u_xchacha.
-(* the prefix type reported for a key of type URL u that came in with prefix p *)
-Definition reported_prefix (u : bytes) (p : N) : N :=
-  if url_collapses u && (p =? pt_legacy) then pt_crunchy else p.
+
+(* ... and the kind registered for a type URL (protoserialization's parser
+   table for the 37 transcribed key types; any other URL: the fallback key) *)
+Definition url_tag (u : bytes) : N :=
+  if beq u u_hmac then 1 else if beq u u_aes_cmac then 2 else if beq u u_aes_gcm then 3
+  else if beq u u_aes_gcm_siv then 4 else if beq u u_aes_ctr_hmac then 5 else if beq u u_aes_siv then 6
+  else if beq u u_hkdf_prf then 7 else if beq u u_hmac_prf then 8 else if beq u u_aes_cmac_prf then 9
+  else if beq u u_ecdsa_pub then 10 else if beq u u_ecdsa_priv then 11 else if beq u u_rsa_pkcs1_pub then 12
+  else if beq u u_rsa_pss_pub then 13 else if beq u u_chacha then 14 else if beq u u_xchacha then 15
+  else if beq u u_xaes_gcm then 16 else if beq u u_ed25519_pub then 17 else if beq u u_ed25519_priv then 18
+  else if beq u u_rsa_pkcs1_priv then 19 else if beq u u_rsa_pss_priv then 19
+  else if beq u u_ecies_pub then 20 else if beq u u_ecies_priv then 21
+  else if beq u u_hpke_pub then 22 else if beq u u_hpke_priv then 23
+  else if beq u u_stream_gcm_hkdf then 24 else if beq u u_stream_ctr_hmac then 25
+  else if beq u u_jwt_hmac then 26 else if beq u u_jwt_ecdsa_pub then 27 else if beq u u_jwt_ecdsa_priv then 28
+  else if beq u u_jwt_rsa_pkcs1_pub then 29 else if beq u u_jwt_rsa_pss_pub then 29
+  else if beq u u_jwt_rsa_pkcs1_priv then 30 else if beq u u_jwt_rsa_pss_priv then 30
+  else if beq u u_jwt_mldsa_pub then 31 else if beq u u_mldsa_pub then 32
+  else if beq u u_slhdsa_pub then 33 else if beq u u_slhdsa_priv then 34
+  else 0.
+
+(* what the serializer of a kind writes: the material type ... *)
+Definition memt (t : N) (l : list N) : bool := existsb (N.eqb t) l.
+Definition symmetric_tags : list N := [1; 2; 3; 4; 5; 6; 7; 8; 9; 14; 15; 16; 24; 25; 26].
+Definition private_tags : list N := [11; 18; 19; 21; 23; 28; 30; 34].
+Definition public_tags : list N := [10; 12; 13; 17; 20; 22; 27; 29; 31; 32; 33].
+Definition material_of_tag (t label : N) : N :=
+  if memt t symmetric_tags then km_symmetric
+  else if memt t private_tags then km_private
+  else if memt t public_tags then km_public
+  else label.                    (* the fallback key keeps the label it came with *)
+(* ... and the prefix type: 1 = no LEGACY variant (LEGACY is CRUNCHY), 2 = always RAW *)
+Definition class_of_tag (t : N) : N :=
+  if memt t [3; 4; 5; 6; 14; 15; 20; 21] then 1 else if memt t [24; 25] then 2 else 0.
+Definition prefix_of_class (c p : N) : N :=
+  if c =? 1 then (if p =? pt_legacy then pt_crunchy else p) else if c =? 2 then pt_raw else p.
+
+Lemma out_material_tag e : out_material e = material_of_tag (ptag (ekey e)) (emat e).
+Proof. unfold out_material. destruct (ekey e) as [| | | | | | | | | | | | | | | | | | |[]|[]| | | |[]| | | | |[]|]; reflexivity. Qed.
+
+Lemma shown_prefix_tag e : shown_prefix e = prefix_of_class (class_of_tag (ptag (ekey e))) (eprefix e).
+Proof.
+  unfold shown_prefix, out_prefix.
+  destruct (ekey e) as [| | | | | | | | | | | | | | | | | | |[]|[]| | | |[]| | | | |[]|]; reflexivity.
+Qed.
+
+(* the material type and the prefix type written for a key of type URL u that
+   came in labelled [label] with prefix type p *)
+Definition url_material (u : bytes) (label : N) : N := material_of_tag (url_tag u) label.
+Definition reported_prefix (u : bytes) (p : N) : N := prefix_of_class (class_of_tag (url_tag u)) p.
 
 Section Info.
 Variable L : stdlib.
@@ -130,60 +184,59 @@ Notation read := (read L).
 Ltac rhs_compute :=
   match goal with |- _ = ?r => let v := eval vm_compute in r in change r with v end.
 
-(* the kind of key object is decided by the type URL alone *)
-Lemma parse_key_collapse kd p i d : parse_key kd p i = Ok d -> aead_like d = url_collapses (kd_url kd).
+(* at a leaf: the constructor is known, and so is the URL (or that it is none
+   of the 37) *)
+Ltac tag_done :=
+  cbn [ptag]; unfold url_is in *;
+  first [ match goal with H : beq (kd_url _) _ = true |- _ => apply beq_eq in H; rewrite H end;
+          rhs_compute; reflexivity
+        | unfold url_tag;
+          repeat match goal with H : beq (kd_url _) _ = false |- _ => rewrite H; clear H end; reflexivity ].
+
+Ltac tagk :=
+  repeat match goal with
+  | |- (if url_is ?k ?u then _ else _) = Ok _ -> _ => let U := fresh "U" in destruct (url_is k u) eqn:U
+  | |- (if ?c then _ else _) = Ok _ -> _ => destruct c
+  | |- okb _ _ = Ok _ -> _ => let H := fresh in intros H; apply okb_ok in H; destruct H as [_ ->]; tag_done
+  | |- bind _ _ = Ok _ -> _ =>
+      let H := fresh in let a := fresh in intros H; apply bind_ok in H; destruct H as [a [_ H]]; revert H; cbv beta
+  | |- Ok _ = Ok _ -> _ => let H := fresh in intros H; inversion H; tag_done
+  | |- Err = Ok _ -> _ => discriminate
+  | |- Panic = Ok _ -> _ => discriminate
+  | |- (let (_, _) := ?p in _) = Ok _ -> _ => destruct p
+  | |- match ?o with Some _ => _ | None => _ end = Ok _ -> _ => destruct o
+  end.
+
+(* the kind of key object is decided by the type URL alone, for every
+   transcribed parser and the fallback *)
+Lemma parse_key_tag kd p i d : parse_key kd p i = Ok d -> ptag d = url_tag (kd_url kd).
 Proof.
-  unfold Untrusted.parse_key, url_is.
-  Ltac scalar_branch E :=
-    apply beq_eq in E; unfold url_collapses; rewrite E; intros H;
-    repeat match type of H with (if ?c then Err else _) = Ok _ => destruct c; [discriminate|] end;
-    apply okb_ok in H; destruct H as [_ ->]; cbn [aead_like]; rhs_compute; reflexivity.
-  destruct (beq (kd_url kd) u_hmac) eqn:E1; [scalar_branch E1|].
-  destruct (beq (kd_url kd) u_aes_cmac) eqn:E2; [scalar_branch E2|].
-  destruct (beq (kd_url kd) u_aes_gcm) eqn:E3; [scalar_branch E3|].
-  destruct (beq (kd_url kd) u_aes_gcm_siv) eqn:E4; [scalar_branch E4|].
-  destruct (beq (kd_url kd) u_aes_ctr_hmac) eqn:E5; [scalar_branch E5|].
-  destruct (beq (kd_url kd) u_aes_siv) eqn:E6; [scalar_branch E6|].
-  destruct (beq (kd_url kd) u_hkdf_prf) eqn:E7; [scalar_branch E7|].
-  destruct (beq (kd_url kd) u_hmac_prf) eqn:E8; [scalar_branch E8|].
-  destruct (beq (kd_url kd) u_aes_cmac_prf) eqn:E9; [scalar_branch E9|].
-  destruct (beq (kd_url kd) u_ecdsa_pub) eqn:E10.
-  { apply beq_eq in E10. unfold url_collapses. rewrite E10. intros H.
-    repeat match type of H with (if ?c then Err else _) = Ok _ => destruct c; [discriminate|] end.
-    apply bind_ok in H. destruct H as [[[[c h] e] pt] [_ H]]. inversion H; subst. cbn [aead_like]. rhs_compute. reflexivity. }
-  destruct (beq (kd_url kd) u_ecdsa_priv) eqn:E11.
-  { apply beq_eq in E11. unfold url_collapses. rewrite E11. intros H.
-    repeat match type of H with (if ?c then Err else _) = Ok _ => destruct c; [discriminate|] end.
-    apply bind_ok in H. destruct H as [[[[c h] e] pt] [_ H]].
-    destruct (coord_size c); [|discriminate]. apply bind_ok in H. destruct H as [dd [_ H]].
-    destruct (ec_pub_of_priv L c dd); [|discriminate]. destruct (beq _ pt); [|discriminate].
-    inversion H; subst. cbn [aead_like]. rhs_compute. reflexivity. }
-  destruct (beq (kd_url kd) u_rsa_pkcs1_pub) eqn:E12; [scalar_branch E12|].
-  destruct (beq (kd_url kd) u_rsa_pss_pub) eqn:E13; [scalar_branch E13|].
-  destruct (beq (kd_url kd) u_chacha) eqn:E14; [scalar_branch E14|].
-  destruct (beq (kd_url kd) u_xchacha) eqn:E15; [scalar_branch E15|].
-  destruct (beq (kd_url kd) u_xaes_gcm) eqn:E16; [scalar_branch E16|].
-  (* the key types modelled later and the fallback key: none of them is AEAD-like *)
-  intros H. apply parse_key_more_kind in H. unfold url_collapses. rewrite E3, E4, E5, E6, E14, E15.
-  destruct d; try discriminate H; reflexivity.
+  unfold Untrusted.parse_key, parse_key_more, parse_ed25519_pub, parse_ed25519_priv, parse_rsa_priv,
+    parse_ecies_pub, parse_ecies_priv, parse_hpke_pub, parse_hpke_priv,
+    parse_stream_gcm_hkdf, parse_stream_ctr_hmac, parse_jwt_hmac, parse_jwt_ecdsa_pub, parse_jwt_ecdsa_priv,
+    parse_jwt_rsa_pub, parse_mldsa_pub, parse_slhdsa_pub, parse_slhdsa_priv,
+    parse_jwt_rsa_priv, parse_jwt_mldsa_pub, ed25519_from_seed.
+  cbv zeta. tagk.
 Qed.
 
 (* what an entry reports, in terms of the key it was made from *)
 Lemma to_entry_info primary k e : to_entry primary k = Ok e ->
   exists kd, k_data k = Some kd /\ eurl e = kd_url kd /\ evalue e = kd_value kd /\ emat e = kd_mat kd
-    /\ out_prefix e = reported_prefix (kd_url kd) (k_prefix k).
+    /\ ptag (ekey e) = url_tag (kd_url kd)
+    /\ shown_prefix e = reported_prefix (kd_url kd) (k_prefix k).
 Proof.
   unfold Untrusted.to_entry. destruct (k_data k) as [kd|]; [|discriminate].
   intros H. apply bind_ok in H. destruct H as [d [Hd H]]. destruct (negb _); [discriminate|].
   inversion H; subst. exists kd. cbn. repeat split.
-  apply parse_key_collapse in Hd. unfold reported_prefix, out_prefix. cbn [ekey eprefix].
-  rewrite <- Hd. destruct d; reflexivity.
+  - eapply parse_key_tag. exact Hd.
+  - apply parse_key_tag in Hd. rewrite shown_prefix_tag. unfold reported_prefix. cbn [ekey eprefix].
+    rewrite Hd. reflexivity.
 Qed.
 
 Definition entry_info_of (primary : N) (k : option pkey) (e : entry) : Prop :=
   entry_of primary k e /\
   exists pk kd, k = Some pk /\ k_data pk = Some kd /\ eurl e = kd_url kd
-    /\ out_prefix e = reported_prefix (kd_url kd) (k_prefix pk).
+    /\ shown_prefix e = reported_prefix (kd_url kd) (k_prefix pk).
 
 Lemma to_entries_info primary keys es :
   to_entries primary keys = Ok es -> Forall2 (entry_info_of primary) keys es.
@@ -193,7 +246,7 @@ Proof.
   - apply bind_ok in H. destruct H as [e [He H]]. apply bind_ok in H. destruct H as [es' [Hes H]].
     inversion H; subst. constructor; [|apply IH; exact Hes]. split.
     + eapply to_entry_shape. exact He.
-    + apply to_entry_info in He. destruct He as [kd [A [B [_ [_ C]]]]]. exists k, kd. auto.
+    + apply to_entry_info in He. destruct He as [kd [A [B [_ [_ [_ C]]]]]]. exists k, kd. auto.
   - discriminate.
 Qed.
 
@@ -202,7 +255,7 @@ Definition reported_key_info (ki : key_info) : key_info :=
   mkKI (ki_url ki) (ki_status ki) (ki_id ki) (reported_prefix (ki_url ki) (ki_prefix ki)).
 
 Lemma entries_key_infos primary keys es : Forall2 (entry_info_of primary) keys es ->
-  map (fun e => mkKI (eurl e) (estatus e) (eid e) (out_prefix e)) es
+  map (fun e => mkKI (eurl e) (estatus e) (eid e) (shown_prefix e)) es
   = map (fun k => reported_key_info (key_info_of k)) keys.
 Proof.
   induction 1 as [|k e keys es [[pk0 [E0 [A [B _]]]] [pk [kd [E [D [U P]]]]]] _ IH]; simpl; [reflexivity|].
